@@ -739,14 +739,16 @@ pub fn run(shard: &Shard) -> Report {
         if trace {
             eprintln!("case {case} class {class}: {}", summarize(&ops).to_string());
         }
-        let (res, stats) = run_ops(cs, &ops, policy);
-        rep.eval();
         let replay = shard
             .base_replay("c35", case)
             .set("engine", "scen_ent")
             .set("tier", tier.clone())
             .set("class", class)
             .set("history", summarize(&ops));
+        simnet::hang::set_case(&format!("class={class}"), &format!("case {case}, history class {class}: {}", summarize(&ops).to_string()), replay.clone());
+        let (res, stats) = run_ops(cs, &ops, policy);
+        simnet::hang::clear_case();
+        rep.eval();
         let found = sigs_of(&res, &stats);
         for p in &stats.panics {
             if p.task == TaskKind::Local {
